@@ -69,3 +69,42 @@ Definition model_run_full (c : cfg) (at_ : Z) (rep : bool) (tl xl : list Z) : Z 
   | Early s => (1, out_of s)
   | Crashed s => (2, out_of s)
   end.
+
+(** environments for the examples, computed from the skeleton (so that they do not depend on how
+    the translator numbers the opaque statements): the opaque conditions that hold on the first
+    path (depth first, `true` tried first, no exception) on which the set-up is left normally ... *)
+Fixpoint norm_paths (b : sblk) (acc : list Z) : list (list Z) :=
+  match b with
+  | SDone => [acc]
+  | SCall _ r | SSetAbort r | SOpq _ r => norm_paths r acc
+  | SReturn _ => []
+  | SIf (CGuard _) t e r => flat_map (norm_paths r) (norm_paths t acc ++ norm_paths e acc)
+  | SIf (COpq n) t e r => flat_map (norm_paths r) (norm_paths t (n :: acc) ++ norm_paths e acc)
+  | STry t h r => flat_map (norm_paths r) (norm_paths t acc)
+  end.
+Definition norm_env (b : sblk) : list Z := match norm_paths b [] with p :: _ => p | [] => [] end.
+
+(** ... and the first opaque statement inside a `try` whose handler sets the flag *)
+Fixpoint has_setabort (b : sblk) : bool :=
+  match b with
+  | SDone | SReturn _ => false
+  | SSetAbort _ => true
+  | SCall _ r | SOpq _ r => has_setabort r
+  | SIf _ t e r => has_setabort t || has_setabort e || has_setabort r
+  | STry t h r => has_setabort t || has_setabort h || has_setabort r
+  end.
+Fixpoint first_opq (b : sblk) : option Z :=
+  match b with
+  | SOpq n _ => Some n
+  | SCall _ r | SSetAbort r => first_opq r
+  | _ => None
+  end.
+Fixpoint abort_try_opq (b : sblk) : option Z :=
+  match b with
+  | SDone | SReturn _ => None
+  | SCall _ r | SSetAbort r | SOpq _ r => abort_try_opq r
+  | SIf _ t e r => match abort_try_opq t with Some n => Some n | None =>
+                   match abort_try_opq e with Some n => Some n | None => abort_try_opq r end end
+  | STry t h r => if has_setabort h then first_opq t else
+                  match abort_try_opq t with Some n => Some n | None => abort_try_opq r end
+  end.
